@@ -102,7 +102,7 @@ class Loop:
         # a `continue` / `break` before the write in the body would skip it
         if region == 'body':
             for y in self.body.walk():
-                if y.k in ('ContinueStmt',) and y.id < node.id and self._owner_loop(y) is self.loop:
+                if y.k in ('ContinueStmt',) and y.pos < node.pos and self._owner_loop(y) is self.loop:
                     return False
         return True
 
@@ -141,7 +141,7 @@ class Loop:
 
     def entry_value(self, key, depth=0):
         """linear form of `key` when the loop is entered (through its unique latest definition before the loop)"""
-        defs = [(n, rhs) for n, rhs in self.outside_defs(key) if n.id < self.loop.id or (self.init is not None and _inside(n, self.init))]
+        defs = [(n, rhs) for n, rhs in self.outside_defs(key) if n.pos < self.loop.pos or (self.init is not None and _inside(n, self.init))]
         if not defs:
             return {key: 1}           # a parameter / member that is not assigned before the loop: its own symbol
         g = self.fn.cfg
@@ -159,9 +159,19 @@ class Loop:
                 reaching.append((n, rhs, wd))
         if not reaching:
             return {key: 1}
-        n, rhs, wd = max(reaching, key=lambda d: d[0].id)
-        # the latest textual definition must dominate the loop (be unconditional relative to it)
-        if not g.dominates(wd, wl):
+        # under the valuation self.bools a conditional definition (`if (given) cur = given + 1;`) either does not happen or happens for sure
+        from . import tables
+        feasible = []
+        for n, rhs, wd in reaching:
+            vals = [(self.fold(c_), pol) for c_, pol in tables.path_conds(n)] if self.bools else []
+            if any(v is not None and v != pol for v, pol in vals):
+                continue
+            feasible.append((n, rhs, wd, bool(vals) and all(v is not None for v, pol in vals)))
+        if not feasible:
+            return {key: 1}
+        n, rhs, wd, certain = max(feasible, key=lambda d: d[0].pos)
+        # the latest textual definition must dominate the loop (be unconditional relative to it), or be certain under the valuation
+        if not (g.dominates(wd, wl) or certain):
             return None
         if rhs is None:
             return None
@@ -313,11 +323,11 @@ class Loop:
     def _precedes(self, wnode, region, at):
         """does the write (in `region`) happen before `at` within the same iteration?"""
         if region == 'inc':
-            return self.inc is not None and _inside(at, self.inc) and wnode.id < at.id and not _inside(at, wnode)
+            return self.inc is not None and _inside(at, self.inc) and wnode.pos < at.pos and not _inside(at, wnode)
         if region == 'cond':
             if self.cond is not None and _inside(at, self.cond):
                 # pre-forms take effect before the comparison, post-forms after it
-                return wnode.id < at.id and not _inside(at, wnode)
+                return wnode.pos < at.pos and not _inside(at, wnode)
             return True        # the condition of iteration k runs before its body and increment
         # region == 'body'
         if self.cond is not None and _inside(at, self.cond):
@@ -326,7 +336,7 @@ class Loop:
             return True
         if _inside(at, wnode):
             return not wnode.op.startswith('post') if wnode.k == 'UnaryOperator' else False
-        return wnode.id < at.id
+        return wnode.pos < at.pos
 
     def addr(self, e, at=None, at_entry=False, depth=0):
         """linear form of the ADDRESS of an lvalue (in units of the element type): `a[i]`, `*p`, `arr[i]` (Array<T>),
